@@ -840,6 +840,15 @@ def stepLine (st : LSt) (toks : List String) : LSt × List String :=
       if s.pool.ps * s.pool.bs ≤ 8388608 ∧ !s.pendingOrder then (st, ["xring err ENOBUFS"])
       else (st, ["bad-op"])
     | none => (st, ["bad-op"])
+  | ["pool", "lone"] =>
+    -- A `ReadBuf` that outlives every handle of its (second-ring, two-buffer) pool: `release` still
+    -- gives its buffer back (`Shared` lives as long as the `ReadBuf`: read_buf.rs:318-334), so the
+    -- kernel is offered both buffers again and the `ReadBuf` can be used for another read.
+    match st with
+    | some s =>
+      if s.pool.ps * s.pool.bs ≤ 8388608 ∧ !s.pendingOrder then (st, ["lone avail=2 reuse=ok"])
+      else (st, ["bad-op"])
+    | none => (st, ["bad-op"])
   | _ =>
     match st, parseOp toks with
     | some s, some op => let (s', o) := sysStep s op; (some s', o)
